@@ -9,6 +9,7 @@
 #include <xercesc/util/SynchronizedStringPool.hpp>
 #include <xercesc/util/Mutexes.hpp>
 #include <xercesc/util/PlatformUtils.hpp>
+#include <xercesc/util/IllegalArgumentException.hpp>
 #include "vx_close.h"
 #define VX_STUB_XMLEXCEPTION
 #define VX_STUB_XMEMORY
@@ -29,7 +30,7 @@ struct ConstPool : XMLStringPool {
   bool exists(const XMLCh* const) const { return vx_const_id != 0; }
   bool exists(const unsigned int id) const { return id >= 1 && id <= vx_const_count; }
   unsigned int getId(const XMLCh* const) const { return vx_const_id; }
-  const XMLCh* getValueForId(const unsigned int) const { return VAL; }
+  const XMLCh* getValueForId(const unsigned int id) const { if (!id || id > vx_const_count) ThrowXML(IllegalArgumentException, XMLExcepts::StrPool_IllegalId); return VAL; }
   unsigned int getStringCount() const { return vx_const_count; }
 };
 extern "C" void harness_syncpool(void) {
@@ -41,7 +42,7 @@ extern "C" void harness_syncpool(void) {
   ConstPool cp(&mm); XMLStringPool* constPool = &cp;
   XMLSynchronizedStringPool sp(constPool, 109, &mm);
   vx_sync_pool = (XMLStringPool*)&sp; sp.fCurId = vx_own_cur;
-  unsigned op = nondet_u8() % 6; unsigned r = 0; bool threw = false;
+  unsigned op = nondet_u8() % 6; unsigned r = 0; bool threw = false, inrange = true;
   try {
     if (op == 0) { r = sp.addOrFind(STR);
       VX_ASSERT(r != 0, "addOrFind never returns the illegal id 0");
@@ -55,10 +56,11 @@ extern "C" void harness_syncpool(void) {
     else if (op == 2) { bool e = sp.exists(STR); VX_ASSERT(e == (vx_const_id != 0 || vx_own_id != 0), "exists(string) iff in one of the pools"); }
     else if (op == 3) { unsigned id = nondet_u32(); VX_ASSUME(id <= 3000); bool e = sp.exists(id);
       VX_ASSERT(e == (id >= 1 && id < vx_own_cur + vx_const_count), "exists(id) iff id is in the combined id range"); }
-    else if (op == 4) { unsigned id = nondet_u32(); VX_ASSUME(id >= 1 && id < vx_own_cur + vx_const_count); (void)sp.getValueForId(id); VX_REACH("getValueForId"); }
+    else if (op == 4) { unsigned id = nondet_u32(); VX_ASSUME(id <= 3000); inrange = (id >= 1 && id < vx_own_cur + vx_const_count);
+      (void)sp.getValueForId(id); VX_REACH("getValueForId returned"); }
     else { r = sp.getStringCount(); VX_ASSERT(r == vx_own_cur + vx_const_count - 1, "string count = both pools"); }
   } catch (const XMLException&) { threw = true; }
   VX_ASSERT(!vx_held[1] && !vx_held[2], "no mutex remains held after the operation (normal or exceptional exit)");
   VX_ASSERT(vx_unprotected == 0, "the shared table is only touched with the pool's mutex held");
-  VX_ASSERT(!threw, "no exception for in-range arguments");
+  if (inrange) VX_ASSERT(!threw, "no exception for in-range arguments"); else { VX_ASSERT(threw, "an id outside both pools is refused"); VX_REACH("getValueForId threw for an id outside the table"); }
 }
